@@ -87,7 +87,20 @@ pub fn gen_transport(r: &mut StdRng) -> (u8, Vec<u8>) {
         3 => {
             let t = pick(r, &[128u8, 129, 1, 2, 3, 4, 133, 134, 135, 136, 137, 200]);
             let mut b = vec![t, if r.gen_range(0..4) == 0 { r.gen_range(0..4) } else { 0 }, r.gen(), r.gen(), r.gen(), r.gen(), r.gen(), r.gen()];
-            b.extend(payload);
+            if (133..=137).contains(&t) && r.gen_range(0..3) > 0 {
+                // neighbour discovery: fixed part + options whose type / length-unit bytes are adversarial
+                let fixed = match t { 133 => 0, 134 => 8, 135 | 136 => 16, _ => 32 };
+                b.extend((0..fixed).map(|_| r.gen::<u8>()));
+                for _ in 0..r.gen_range(0..4) {
+                    let ty = pick(r, &[1u8, 2, 3, 4, 5, 6, 0, 255]);
+                    let units = pick(r, &[0u8, 1, 1, 2, 4, 5, 31, 32, 33, 255]);
+                    b.extend([ty, units]);
+                    let n = (units as usize * 8).saturating_sub(2).min(r.gen_range(0..40));
+                    b.extend((0..n).map(|_| r.gen::<u8>()));
+                }
+            } else {
+                b.extend(payload);
+            }
             (58, b)
         }
         4 => (r.gen_range(100..200), payload),
